@@ -1438,13 +1438,26 @@ func (lhh *LightHouseHandler) handleHostPunchNotification(n *NebulaMeta, fromVpn
 		return
 	}
 
+	// Do not punch towards an address that answered a handshake for this host as somebody else
+	lhh.lh.RLock()
+	known := lhh.lh.addrMap[detailsVpnAddr]
+	lhh.lh.RUnlock()
+	isBad := func(target netip.AddrPort) bool {
+		if known == nil {
+			return false
+		}
+		known.RLock()
+		defer known.RUnlock()
+		return known.unlockedIsBad(target)
+	}
+
 	for _, a := range n.Details.V4AddrPorts {
 		if a == nil {
 			continue
 		}
 		b := protoV4AddrPortToNetAddrPort(a)
 		// Same filter as for addresses we store: allowed by the remote allow list and not inside our own networks
-		if lhh.lh.unlockedShouldAddV4(detailsVpnAddr, a) {
+		if lhh.lh.unlockedShouldAddV4(detailsVpnAddr, a) && !isBad(b) {
 			lhh.lh.punchy.Schedule(b, detailsVpnAddr)
 		}
 	}
@@ -1454,7 +1467,7 @@ func (lhh *LightHouseHandler) handleHostPunchNotification(n *NebulaMeta, fromVpn
 			continue
 		}
 		b := protoV6AddrPortToNetAddrPort(a)
-		if lhh.lh.unlockedShouldAddV6(detailsVpnAddr, a) {
+		if lhh.lh.unlockedShouldAddV6(detailsVpnAddr, a) && !isBad(b) {
 			lhh.lh.punchy.Schedule(b, detailsVpnAddr)
 		}
 	}
